@@ -608,12 +608,13 @@ func dependentsFresh(c *Ctx, rule string) {
 		for _, in := range Find(f, ReturnsNilConst(1)) {
 			n++
 			d = p.DescN(in.(*ssa.Return).Results[0], 5)
-			call, _ := CallOf(in.(*ssa.Return).Results[0])
-			okThis := call != nil && p.CalleeName(call) == "slices.Concat"
+			// a fresh slice holding both lookups: slices.Concat(a, b), or append(append(nil/fresh, a...), b...)
+			fresh, parts := concatParts(p, in.(*ssa.Return).Results[0], 0)
+			okThis := fresh && len(parts) == 2
 
 			if okThis {
-				elems, lit := VarargElems(CallArgs(call)[0])
-				okThis = lit && len(elems) == 2 && Glob("lookup(*param#0.inputLookup,*", p.Desc(elems[0])+p.Desc(elems[1])) && strings.Contains(p.Desc(elems[0])+p.Desc(elems[1]), "inputLookupID")
+				d0, d1 := p.Desc(parts[0]), p.Desc(parts[1])
+				okThis = Glob("lookup(*param#0.inputLookup,*", d0+d1) && strings.Contains(d0+d1, "inputLookupID") && (strings.Contains(d0, "inputLookupID") != strings.Contains(d1, "inputLookupID"))
 			}
 
 			if !okThis {
@@ -643,4 +644,46 @@ func isLoopIndex(v ssa.Value) bool {
 	}
 
 	return false
+}
+
+// concatParts decomposes a slice built by concatenation: whether the storage is allocated by the
+// expression itself, and the slices whose elements are copied into it, in order.
+func concatParts(p *Program, v ssa.Value, d int) (bool, []ssa.Value) {
+	v = Fwd(v)
+	if d > 6 {
+		return false, nil
+	}
+
+	if isNilConst(v) {
+		return true, nil
+	}
+
+	if _, ok := v.(*ssa.MakeSlice); ok {
+		return true, nil
+	}
+
+	call, _ := CallOf(v)
+	if call == nil {
+		return false, nil
+	}
+
+	switch p.CalleeName(call) {
+	case "slices.Concat":
+		elems, lit := VarargElems(CallArgs(call)[0])
+
+		return lit, elems
+	case "slices.Clone":
+		return true, []ssa.Value{CallArgs(call)[0]}
+	case "builtin.append":
+		args := CallArgs(call)
+		if len(args) != 2 {
+			return false, nil
+		}
+
+		fresh, parts := concatParts(p, args[0], d+1)
+
+		return fresh, append(parts, args[1])
+	}
+
+	return false, nil
 }
